@@ -125,7 +125,7 @@ theorem mem_nfCands {n : Nat} {E : HG} {S : List Nat} :
 def has3 (E : HG) (S : List Nat) : Prop := ∃ e ∈ E, e.length = 3 ∧ ∀ z ∈ e, z ∈ S
 
 /-- `_motifs_ho_not_full` (order 4): the newly visited node sets -/
-theorem mem_notFullSets {E : HG} (hE : WF E) {S : List Nat} :
+theorem mem_notFullSets {E : HG} (_hE : WF E) {S : List Nat} :
     S ∈ notFullSets 4 E (fullSets 4 E) ↔
       SSorted S ∧ S.length = 4 ∧ S ∉ E ∧
       ∃ e ∈ E, e.length = 3 ∧ (∀ z ∈ e, z ∈ S) ∧ ∃ e' ∈ E, e'.length < 4 ∧ (∀ z ∈ e', z ∈ S) ∧
